@@ -158,27 +158,25 @@ class Xunitary(Compiler):
             # insert S2gates with 0 squeezing
             B.insert(0, Command(ops.S2gate(0, 0), [registers[i], registers[j]]))
 
-        # get list of circuit registers as a tuple for each S2gate
-        regrefs = [(cmd.reg[0].ind, cmd.reg[1].ind) for cmd in B]
+        # merge S2gates acting on the same pair of modes; the inverse of an S2gate
+        # is the S2gate with the opposite squeezing amplitude
+        merged = {}
+        for cmd in B:
+            mode = (cmd.reg[0].ind, cmd.reg[1].ind)
+            r = -cmd.op.p[0] if cmd.op.dagger else cmd.op.p[0]
+            phi = cmd.op.p[1]
 
-        # merge S2gates
-        if len(regrefs) > half_n_modes:
-            for mode, indices in list_duplicates(regrefs):
-                r = 0
-                phi = 0
+            if mode in merged:
+                if merged[mode][1] != phi:
+                    raise CircuitError("Cannot merge S2gates with different phase values.")
+                merged[mode][0] = merged[mode][0] + r
+            else:
+                merged[mode] = [r, phi]
 
-                for k, i in enumerate(sorted(indices, reverse=True)):
-                    removed_cmd = B.pop(i)
-                    r += removed_cmd.op.p[0]
-                    phi_new = removed_cmd.op.p[1]
-
-                    if k > 0 and phi_new != phi:
-                        raise CircuitError("Cannot merge S2gates with different phase values.")
-
-                    phi = phi_new
-
-                i, j = mode
-                B.insert(indices[0], Command(ops.S2gate(r, phi), [registers[i], registers[j]]))
+        B = [
+            Command(ops.S2gate(r, phi), [registers[i], registers[j]])
+            for (i, j), (r, phi) in merged.items()
+        ]
 
         meas_seq = [C[-1]]
         seq = GaussianUnitary().compile(C[:-1], registers)
